@@ -946,50 +946,8 @@ func checkFirstValueRegisters(p *Prog, r *Report, rule string) {
 			if !pend {
 				continue
 			}
-			// can this call see position 0?
-			admits := 1 // 1 yes, 0 no, -1 unknown
-			for _, g := range guardsAt(fd.call.Block()) {
-				bo, ok := g.Cond.(*ssa.BinOp)
-				if !ok {
-					continue
-				}
-				isIdx := false
-				for _, ix := range idxs {
-					if bo.X == ix {
-						isIdx = true
-					}
-				}
-				c, isC := constInt(bo.Y)
-				if !isIdx || !isC {
-					if dependsOn(bo.X, isVP) || dependsOn(bo.Y, isVP) {
-						continue // a test about the list (its length), not about the position
-					}
-					if admits == 1 {
-						admits = -1
-					}
-					continue
-				}
-				var holds bool
-				switch bo.Op {
-				case token.EQL:
-					holds = 0 == c
-				case token.NEQ:
-					holds = 0 != c
-				case token.LSS:
-					holds = 0 < c
-				case token.LEQ:
-					holds = 0 <= c
-				case token.GTR:
-					holds = 0 > c
-				case token.GEQ:
-					holds = 0 >= c
-				default:
-					continue
-				}
-				if holds != g.Pol {
-					admits = 0
-				}
-			}
+			// can this call see position 0? — by the element(s) of the list its arguments are taken from
+			admits := c05AdmitsFirst(fd.call, vp)
 			if admits == 1 {
 				handled = true
 				if !reg {
@@ -1003,4 +961,130 @@ func checkFirstValueRegisters(p *Prog, r *Report, rule string) {
 		r.Check(okAll && handled, rule, "first value of "+shortName(f)+" registers the pending condition", p.Pos(f.Pos()), "position 0 goes through the registering method",
 			"the value at position 0 is handed to a method that only adds a result to the pending condition without entering it into the condition list (the registering and the adding method are exchanged): When(args).Returns(v) leaves the condition unregistered and the call falls through to the default or panics")
 	}
+}
+
+
+// c05AdmitsFirst: can the call be fed the element at position 0 of the variadic list vp? 1 yes, 0 no, -1 unknown.
+// The elements are found in the dependency cone of the call's arguments: vp[c] (c constant), vp[i] for a loop position i
+// (start value, and the position tests that lead to the call), or elements of vp[L:] (positions from L on).
+func c05AdmitsFirst(call ssa.CallInstruction, vp *ssa.Parameter) int {
+	type src struct {
+		ia  *ssa.IndexAddr
+		low int64 // positions of the base slice start here
+	}
+	var srcs []src
+	seen := map[ssa.Value]bool{}
+	var walk func(v ssa.Value, depth int)
+	walk = func(v ssa.Value, depth int) {
+		if v == nil || seen[v] || depth > 12 {
+			return
+		}
+		seen[v] = true
+		if ia, ok := v.(*ssa.IndexAddr); ok {
+			base := resolveLocal(ia.X)
+			if base == ssa.Value(vp) {
+				srcs = append(srcs, src{ia, 0})
+				return
+			}
+			if sl, ok := base.(*ssa.Slice); ok && resolveLocal(sl.X) == ssa.Value(vp) {
+				low := int64(0)
+				if sl.Low != nil {
+					c, isC := constInt(sl.Low)
+					if !isC {
+						low = -1
+					} else {
+						low = c
+					}
+				}
+				srcs = append(srcs, src{ia, low})
+				return
+			}
+		}
+		if al, ok := v.(*ssa.Alloc); ok && al.Referrers() != nil {
+			for _, ref := range *al.Referrers() {
+				switch x := ref.(type) {
+				case *ssa.Store:
+					if x.Addr == ssa.Value(al) {
+						walk(x.Val, depth+1)
+					}
+				case *ssa.IndexAddr:
+					if x.Referrers() != nil {
+						for _, r2 := range *x.Referrers() {
+							if st, ok := r2.(*ssa.Store); ok && st.Addr == ssa.Value(x) {
+								walk(st.Val, depth+1)
+							}
+						}
+					}
+				}
+			}
+		}
+		if ins, ok := v.(ssa.Instruction); ok {
+			for _, op := range ins.Operands(nil) {
+				if *op != nil {
+					walk(*op, depth+1)
+				}
+			}
+		}
+	}
+	for _, a := range call.Common().Args[1:] {
+		walk(a, 0)
+	}
+	if len(srcs) == 0 {
+		return -1
+	}
+	res := 0
+	for _, sc := range srcs {
+		if sc.low > 0 {
+			continue // elements of vp[L:], L >= 1
+		}
+		if sc.low < 0 {
+			res = -1
+			continue
+		}
+		if c, isC := constInt(sc.ia.Index); isC {
+			if c == 0 {
+				return 1
+			}
+			continue
+		}
+		if first, step, ok := loopIndex(sc.ia.Index); ok && step > 0 && first > 0 {
+			continue
+		}
+		// a running position: the tests on it that lead to the call
+		adm := 1
+		for _, g := range guardsAt(call.Block()) {
+			bo, ok := g.Cond.(*ssa.BinOp)
+			if !ok || bo.X != sc.ia.Index {
+				continue
+			}
+			c, isC := constInt(bo.Y)
+			if !isC {
+				continue
+			}
+			var holds bool
+			switch bo.Op {
+			case token.EQL:
+				holds = 0 == c
+			case token.NEQ:
+				holds = 0 != c
+			case token.LSS:
+				holds = 0 < c
+			case token.LEQ:
+				holds = 0 <= c
+			case token.GTR:
+				holds = 0 > c
+			case token.GEQ:
+				holds = 0 >= c
+			default:
+				continue
+			}
+			if holds != g.Pol {
+				adm = 0
+			}
+		}
+		if adm == 1 {
+			return 1
+		}
+	}
+	return res
 }
